@@ -1327,9 +1327,10 @@ impl TryFrom<String> for ForceMaxSideEffect {
             "Mass" => Self::Mass,
             "UpdateMu" => Self::UpdateMu,
             "SetMuToNone" => Self::SetMuToNone,
+            "SetMassToNone" => Self::SetMassToNone,
             "SetMassAndMuToNone" => Self::SetMassAndMuToNone,
             _ => {
-                bail!(format!("`ForceMaxSideEffect` must be 'Mass', `UpdateMu`, `SetMuToNone`, or 'SetMassAndMuToNone'."))
+                bail!(format!("`ForceMaxSideEffect` must be 'Mass', `UpdateMu`, `SetMuToNone`, `SetMassToNone`, or 'SetMassAndMuToNone'."))
             }
         };
         Ok(mass_side_effect)
